@@ -833,6 +833,44 @@ def make_two_allocator_script(rng, name, kind=None):
     return f"=== {name} plan={plan} nkeys=64\n" + "\n".join(g.lines) + "\n"
 
 
+def make_clone_from_capacity_script(rng, name, kind=None):
+    """C11 deterministically: clone_from between two maps whose capacity() is EQUAL but whose bucket
+    counts differ, because one of them was filled to its load limit and then half emptied by single
+    removals (every removal leaves a removed-slot marker, so capacity() falls to len()): target
+    tombstoned / source fresh, and the other way round.  Afterwards every source key must be found."""
+    kind = kind or rng.choice(["map-drop", "map-plain"])
+    plan = rng.choice(["zero", "seq", "seq"])
+    g = Gen(rng, 120, plan, kind)
+    g.resync = False; g.many = False; g.forget = False
+    g.header()
+    for n in [28, 56]:
+        for tomb_is_target in (True, False):
+            g.emit("dropmap"); g.contents = {}
+            fresh_keys = list(range(60, 60 + n // 2))
+            # the tombstoned map: n keys (exactly the load limit of 32 / 64 buckets), the first half removed one by one
+            for k in range(n):
+                g.op_insert(k)
+            for k in range(n // 2):
+                g.op_remove(k)
+            g.emit("len"); g.emit("capacity")
+            g.emit("o_swap"); g.contents, g.other = {}, dict(g.contents)
+            g.emit("dropmap"); g.contents = {}
+            # the fresh map: n/2 keys inserted one by one (capacity n/2 exactly, half the buckets)
+            for k in fresh_keys:
+                g.op_insert(k)
+            g.emit("len"); g.emit("capacity")
+            if tomb_is_target:
+                g.emit("o_swap"); g.contents, g.other = dict(g.other), dict(g.contents)
+            g.emit("o_clone_from"); g.contents = dict(g.other)
+            g.emit("len"); g.emit("capacity"); g.emit("iter"); g.emit("o_eq")
+            for k in sorted(g.contents):
+                g.emit(f"get {k}")
+            # both maps stay usable and independent
+            g.op_insert(119); g.emit("o_eq"); g.op_remove(119); g.emit("o_eq")
+    g.emit("dropmap")
+    return f"=== {name} plan={plan} nkeys=120\n" + "\n".join(g.lines) + "\n"
+
+
 FAULT_MATRIX = [
     # (arm, operation template) -- every callback class at every operation that runs it
     ("droppanic_nth", "retain"), ("droppanic_nth", "clear"), ("droppanic_nth", "drain"), ("droppanic_nth", "dropmap"),
